@@ -14,7 +14,7 @@
    spelling - shorthand, blanks, aliases - are covered by the correspondence only (as in C01/C13):
    that the parser maps every spelling to the structure is not a theorem. *)
 From JP Require Import Base Json Syntax Lex Parse Eval Serialize TokPrint Printable Reparsable Gate
-                       NormDomain TokensOk NormProofs SpellingProofs PrintParseProofs PrintLexProofs RoundTrip.
+                       NormDomain TokensOk FreeSpell NormProofs SpellingProofs PrintParseProofs PrintLexProofs RoundTrip FreeSpellProofs.
 
 (* the lexer reads the string form produced with ANY admissible spellings as exactly the tokens it
    was printed from - prefix-related spellings included *)
@@ -79,6 +79,29 @@ Theorem C17_string_form :
       c10_domain E re_ok q' = true.
 Proof. exact RoundTrip.string_form_env_total. Qed.
 Print Assumptions C17_string_form.
+
+(* free spellings (spec/FreeSpell.v: any blank space where the scanner's skip rule allows it; single
+   or double quotes with any escape spelling of the same string; dot shorthand for names, wildcard
+   and keys selector; a bare name after `..`): the scanner reads them as the tokens they denote, in
+   every environment with admissible spellings *)
+Theorem C17_lex_free :
+  forall (E : env) (q : query) (t : ustr) (ts : list token),
+    tokens_ok E = true -> FreeSpell.spells_as E q t ts -> tokenize E t = ts.
+Proof. exact FreeSpellProofs.lex_free. Qed.
+Print Assumptions C17_lex_free.
+
+(* ... and those of them that denote the canonical token list (blanks anywhere allowed, blanks
+   around the colons of a slice and after a call's parenthesis, lone dots) compile to the normal
+   form of the query, hence return what the query returns *)
+Theorem C17_free_spelling_same_tokens :
+  forall (E : env) re_ok rf rs (q : query) (t : ustr) (ts : list token) (d ctx : json),
+    tokens_ok E = true -> e_well_typed E = true -> e_unicode_escape E = true ->
+    c10_domain E re_ok q = true ->
+    FreeSpell.spells_as E q t ts -> query_toks E q = Ok ts ->
+    exists q', compile E re_ok t = Ok q' /\
+               compound_finditer E rf rs q' d ctx = compound_finditer E rf rs q d ctx.
+Proof. exact FreeSpellProofs.free_spelling_same_tokens_results. Qed.
+Print Assumptions C17_free_spelling_same_tokens.
 
 (* the default spellings are admissible *)
 Theorem C17_default_admissible : forall E, default_tokens E -> tokens_ok E = true.
